@@ -7,7 +7,8 @@ EXPLANATION = 'Mixed. P (discharged for every number of row groups and every row
 def p_parts():
     from ._partial import p_partial
     from ._handles import p_handles
-    return [p_partial, p_handles]
+    from ._generic import optional_parts
+    return [p_partial, p_handles] + optional_parts(("_readoptions", "p_readoptions"))
 
 
 def run(ctx):
